@@ -534,10 +534,33 @@ def header_reader(ctx) -> Dict[bytes, Tuple[str, ast.AST]]:
     return out
 
 
+def split_line_breaks(fn):
+    """a copy of the function in which a bytes literal that begins with line breaks (`b"\\r\\n#BPM"`: the break written in front of a
+    line appended to one growing buffer) is the break followed by the line's own text (`b"\\r\\n" + b"#BPM"`)"""
+    import copy as _copy
+    import dataclasses
+
+    class Sp(ast.NodeTransformer):
+        def visit_Constant(self, n):
+            if isinstance(n.value, bytes) and n.value[:1] in (b"\r", b"\n") and n.value.lstrip(b"\r\n"):
+                rest = n.value.lstrip(b"\r\n")
+                br = n.value[:len(n.value) - len(rest)]
+                return ast.copy_location(ast.BinOp(left=ast.copy_location(ast.Constant(value=br), n), op=ast.Add(),
+                                                   right=ast.copy_location(ast.Constant(value=rest), n)), n)
+            return n
+
+    class Re(ast.NodeTransformer):
+        """((br + tag) + x) stays left-associated: (br + tag) + x  ->  br + tag + x  as  ((br + tag) + x) already is; but
+        (br + tag) nested as the LEFT operand of a chain is what the rules flatten"""
+    node = Sp().visit(_copy.deepcopy(fn.node))
+    ast.fix_missing_locations(node)
+    return dataclasses.replace(fn, node=node)
+
+
 def header_writer(ctx) -> Dict[bytes, Tuple[set, ast.AST]]:
     """header key -> (self fields read, node) from `b"#KEY " + ...` in _write_file_header."""
     M = ctx.M
-    wr = M.nfn(f"{BMSMAP}._write_file_header")      # (private helpers inlined)
+    wr = split_line_breaks(M.nfn(f"{BMSMAP}._write_file_header"))      # (private helpers inlined)
     out = {}
     # locals bound once: the fields a header value reads include those its local operands were computed from
     ldefs = {}
